@@ -162,11 +162,15 @@ class HitranCiaGrid(Logger):
             Master temperature grid
 
         """
+        # Coverage of this grid as read from the file: zero-filled
+        # temperatures must not extend it
+        t_lowest = min(self.temperature)
+        t_highest = max(self.temperature)
         for t in temperatures:
             if t in self.temperature:
                 continue
             self.debug('Tempurature %s, %s', t)
-            if t < min(self.temperature) or t > max(self.temperature):
+            if t < t_lowest or t > t_highest:
                 self.add_temperature(t, np.zeros_like(self.wn))
             else:
                 indicies = self.find_closest_temperature_index(t)
